@@ -33,12 +33,15 @@ def isGated (name : String) : Bool := gatedNames.contains name
 def gateMsg (name : String) : String :=
   if name == "_service" then "federated introspection disabled" else "introspection disabled"
 
-/-- `injectIntrospectionRoots`: the two fields appended to the root query object -/
+/-- `injectIntrospectionRoots`: the two fields appended to the root query object. gqlparser's loader has
+    already put its own `__schema: __Schema!` / `__type` on the query definition; `codegen/object.go`
+    skips every `__`-prefixed field of the schema, so only gqlgen's (nullable) definitions are executable. -/
 def injectRoots (s : GqlgenVerif.Schema) : GqlgenVerif.Schema :=
   { s with types := s.types.map fun t =>
       if t.name == s.query then
-        { t with fields := t.fields ++ [{ name := "__type", type := .named "__Type" false },
-                                        { name := "__schema", type := .named "__Schema" false }] }
+        { t with fields := (t.fields.filter fun f => !f.name.startsWith "__") ++
+            [{ name := "__type", type := .named "__Type" false },
+             { name := "__schema", type := .named "__Schema" false }] }
       else t }
 
 /-- the gated root field collected under response key `k`, if any -/
